@@ -14,7 +14,7 @@ open PhyVerif PhyVerif.C04
 theorem loadFull_nf {β : Type} (inv : Arr → Arr) (rate : Rat) (tden ncd : Nat) (one : Cell)
     (raw : Option (List (List (List β)))) (d : Dir) (fv : FullView β) (d' : Dir)
     (h : loadFull inv rate tden ncd one raw d = .ok (fv, d')) :
-    load inv d = .ok (fv.base, d') ∧
+    load inv d one = .ok (fv.base, d') ∧
     (∀ c ∈ shapeChecks fv.base fv.templateCols fv.nSpikes fv.nChannels fv.nTemplates ncd, c.2 = true) ∧
     fv.nSpikes = fv.base.times.arr.shape.headD 0 ∧
     fv.nChannels = fv.base.channelMap.shape.headD 0 ∧
@@ -38,7 +38,7 @@ theorem loadFull_nf {β : Type} (inv : Arr → Arr) (rate : Rat) (tden ncd : Nat
       | none => fv.spikeTimes.getLast?.getD 0) := by
   unfold loadFull at h
   simp only [bind, Except.bind, pure, Except.pure, throw, throwThe, MonadExceptOf.throw] at h
-  cases hl : load inv d with
+  cases hl : load inv d one with
   | error e => simp [hl] at h
   | ok r =>
     obtain ⟨v, dd⟩ := r
@@ -495,7 +495,7 @@ variable {β : Type} (inv : Arr → Arr) (rate : Rat) (tden ncd : Nat) (one : Ce
   (raw : Option (List (List (List β)))) (d : Dir) (fv : FullView β) (d' : Dir)
 
 theorem loadFull_base (h : loadFull inv rate tden ncd one raw d = .ok (fv, d')) :
-    load inv d = .ok (fv.base, d') :=
+    load inv d one = .ok (fv.base, d') :=
   (loadFull_nf inv rate tden ncd one raw d fv d' h).1
 
 theorem mem_names_of_lookup (f : String) (a : Arr) (h : d.lookup f = some a) : f ∈ names d := by
@@ -661,7 +661,7 @@ theorem loadFull_uncurated_without_templates {β : Type} (inv : Arr → Arr) (ra
     fv.base.spikeClusters.data = fv.base.spikeTemplates.data := by
   unfold loadFull at h
   simp only [bind, Except.bind, pure, Except.pure, throw, throwThe, MonadExceptOf.throw] at h
-  cases hl : load inv d with
+  cases hl : load inv d one with
   | error e => simp [hl] at h
   | ok r =>
     obtain ⟨v, dd⟩ := r
